@@ -26,7 +26,7 @@ Limit(e, a, d) == IF cfg.runtime THEN e.limits[a][d] ELSE Scale(d) * quota[a].ma
 LimitsAreRuntimes(e, q) ==
     cfg.runtime =>
        /\ PathOK(e.levels, q)
-       /\ \A d \in Dims :
+       /\ \A d \in quota[q].dims :
              /\ LevelsOK(e.levels, 1, d, Scale(d) * cluster[d])
              /\ \A i \in 1..Len(e.levels) : e.limits[e.levels[i].name][d] = RtOf(e.levels[i], d, e.levels[i].name)
 
@@ -36,11 +36,12 @@ TAdmit ==
     /\ LET p   == Ev.pod
            q   == pod[p].q
            req == pod[p].req
-           OwnOK == \A d \in Dims : Scale(d) * (Used(q, d) + req[d]) <= Limit(Ev, q, d)
-           NPOK  == pod[p].np => \A d \in Dims : NPUsed(q, d) + req[d] <= quota[q].min[d]
-           ParOK == cfg.checkParent => \A a \in Anc(q) : \A d \in Dims : Scale(d) * (Used(a, d) + req[d]) <= Limit(Ev, a, d)
+           DD    == quota[q].dims                      \* "in every dimension the quota declares"
+           OwnOK == \A d \in DD : Scale(d) * (Used(q, d) + req[d]) <= Limit(Ev, q, d)
+           NPOK  == pod[p].np => \A d \in DD : NPUsed(q, d) + req[d] <= quota[q].min[d]
+           ParOK == cfg.checkParent => \A a \in Anc(q) : \A d \in DD : Scale(d) * (Used(a, d) + req[d]) <= Limit(Ev, a, d)
        IN  /\ LimitsAreRuntimes(Ev, q)
-           /\ \A d \in Dims : Ev.usedLimit[d] = Limit(Ev, q, d)          \* the plugin compared against the right limit
+           /\ \A d \in DD : Ev.usedLimit[d] = Limit(Ev, q, d)            \* the plugin compared against the right limit
            /\ Ev.code \in {"Success", "Unschedulable"}
            /\ Ev.code = "Success" <=> (OwnOK /\ NPOK /\ ParOK)            \* no over-admission, no unjustified rejection
            /\ Becomes([Cur EXCEPT !.pod[p].assigned = (Ev.code = "Success")])   \* Success is followed by Reserve
@@ -49,7 +50,7 @@ TAdmit ==
 \* quota upserts remember lowered max
 TQuotaA ==
     /\ IsEvent("quota") /\ OpOK(Cur, Ev) /\ Becomes(OpF(Cur, Ev))
-    /\ lowered' = IF Ev.name \in DOMAIN quota /\ \E d \in Dims : Ev.max[d] < quota[Ev.name].max[d]
+    /\ lowered' = IF Ev.name \in DOMAIN quota /\ \E d \in quota[Ev.name].dims : Ev.max[d] < quota[Ev.name].max[d]
                   THEN lowered \cup {Ev.name} ELSE lowered
     /\ UNCHANGED cfg /\ UNCHANGED scaleOn
 TOtherA ==
@@ -61,7 +62,7 @@ TNodeA == IsEvent("node") /\ NodeDelta(Vec(Ev.delta)) /\ UNCHANGED avars /\ UNCH
 \* a group whose max is not lowered never shows used above max (groups checked at every admission they account for)
 NeverAboveMax ==
     \A q \in DOMAIN quota : (q \notin lowered /\ (cfg.checkParent \/ Kids(q) = {})) =>
-        \A d \in Dims : Used(q, d) <= quota[q].max[d]
+        \A d \in quota[q].dims : Used(q, d) <= quota[q].max[d]
 
 AdmInit == \E i \in Starts : /\ TraceStart(i) /\ Init
                              /\ cfg = [runtime |-> Trace[i].runtime, checkParent |-> Trace[i].checkParent]
